@@ -20,8 +20,21 @@ structure Laws (S : SE B DM) : Prop where
   unwrap_wrap : ∀ a dm, S.unwrap (S.wrap a dm) = some (a, dm)
   /-- rmp round trip of `Chunk` -/
   unbin_bin : ∀ b, S.unbin (S.bin b) = some b
-  /-- sha3-256 is collision-free -/
-  hash_inj : ∀ a b, S.hash a = S.hash b → a = b
+
+/-- No two of these byte strings collide under `XorName::from_content`. This is a hypothesis about the byte strings at
+hand (the chunks one encryption produced, the contents a set of holders offers), not a law: no hash function into a
+bounded range is injective on all byte strings, and none of the theorems asks for that. -/
+def NoCollision (S : SE B DM) (l : List B) : Prop := ∀ a ∈ l, ∀ b ∈ l, S.hash a = S.hash b → a = b
+
+/-- What is assumed of the third-party crate about sizes, for the pack loop to come to an end: a serialised data-map
+level longer than `floor` bytes is handed to `self_encryption::encrypt` as at least 3 bytes, and the serialised
+`Additional` level of its data map is shorter than it. (Real crate: an input of `L` bytes gives `max 3 ⌈L / MAX⌉`
+chunks and a level of roughly 110 bytes per chunk, so `floor` is the size of a three-chunk level — measured by the
+harness; the shipped `MAX_CHUNK_SIZE` is 1 MiB.) -/
+structure Shrinks (S : SE B DM) (floor : Nat) : Prop where
+  two_le : 2 ≤ floor
+  packed_large : ∀ b, floor < S.len b → 3 ≤ S.len (packedBytes S b)
+  shrink : ∀ b dm cs, floor < S.len b → S.enc (packedBytes S b) = some (dm, cs) → S.len (S.wrap true dm) < S.len b
 
 /-! ## Completion orders -/
 
@@ -38,6 +51,21 @@ theorem permute_perm {α : Type} : ∀ (code : List Nat) (l : List α), (permute
   | p :: ps, x :: xs => by
     simp only [permute]
     exact (insertAt_perm x _ p).trans ((permute_perm ps xs).cons x)
+
+theorem insertAt_length_append {α : Type} (x : α) : ∀ (a b : List α), insertAt a.length x (a ++ b) = a ++ x :: b
+  | [], [] => rfl
+  | [], _ :: _ => rfl
+  | y :: ys, b => by simp [insertAt, insertAt_length_append x ys b]
+
+/-- every permutation has a code: `permute` reaches every arrangement of the tasks -/
+theorem permute_surj {α : Type} : ∀ (l l' : List α), l'.Perm l → ∃ code, permute code l = l'
+  | [], l', h => ⟨[], by rw [List.Perm.eq_nil h]; rfl⟩
+  | x :: xs, l', h => by
+    have hx : x ∈ l' := h.mem_iff.2 List.mem_cons_self
+    obtain ⟨a, b, rfl⟩ := List.append_of_mem hx
+    have hab : (a ++ b).Perm xs := (List.perm_middle.symm.trans h).cons_inv
+    obtain ⟨ps, hps⟩ := permute_surj xs (a ++ b) hab
+    exact ⟨a.length :: ps, by simp only [permute, hps, insertAt_length_append]⟩
 
 theorem insertAt_map {α β : Type} (f : α → β) (x : α) : ∀ (l : List α) (p : Nat),
     (insertAt p x l).map f = insertAt p (f x) (l.map f)
@@ -60,7 +88,8 @@ theorem collect_ok {ε α : Type} : ∀ (l : List α), collect (l.map (Except.ok
 /-- every chunk carries the hash of its value as address (true of everything `Chunk::new` makes) -/
 def WF (S : SE B DM) (store : List (Chunk B)) : Prop := ∀ c ∈ store, c.address = S.hash c.value
 
-theorem storeGet_hit (S : SE B DM) (L : Laws S) (store : List (Chunk B)) (hwf : WF S store) (v : B)
+theorem storeGet_hit (S : SE B DM) (store : List (Chunk B)) (hwf : WF S store)
+    (hcf : NoCollision S (store.map (·.value))) (v : B)
     (hin : Chunk.new S v ∈ store) : ∃ c, storeGet store (S.hash v) = .ok c ∧ c.value = v := by
   unfold storeGet
   cases hf : store.find? (fun c => c.address == S.hash v) with
@@ -72,12 +101,12 @@ theorem storeGet_hit (S : SE B DM) (L : Laws S) (store : List (Chunk B)) (hwf : 
     have hp := List.find?_some hf
     have hm := List.mem_of_find?_eq_some hf
     simp only [beq_iff_eq] at hp
-    exact L.hash_inj _ _ ((hwf c hm).symm.trans hp)
+    exact hcf _ (List.mem_map_of_mem hm) _ (List.mem_map_of_mem (f := (·.value)) hin) ((hwf c hm).symm.trans hp)
 
 /-! ## One fetch round inverts one self-encryption -/
 
 theorem fetch_round (S : SE B DM) (L : Laws S) (store : List (Chunk B)) (hwf : WF S store)
-    (b : B) (dm : DM) (cs : List B) (henc : S.enc b = some (dm, cs))
+    (hcf : NoCollision S (store.map (·.value))) (b : B) (dm : DM) (cs : List B) (henc : S.enc b = some (dm, cs))
     (hin : ∀ c ∈ cs, Chunk.new S c ∈ store) (code : List Nat) :
     fetchFromDataMap S (storeGet store) code dm = .ok b := by
   obtain ⟨ord, hperm, hinfos, hdec⟩ := L.enc_sound b dm cs henc
@@ -94,7 +123,7 @@ theorem fetch_round (S : SE B DM) (L : Laws S) (store : List (Chunk B)) (hwf : W
     have hc : c ∈ cs := by
       have := List.mem_zipIdx hci
       rw [this.2.2]; exact hperm.mem_iff.1 (List.getElem_mem _)
-    obtain ⟨c', hget, hval⟩ := storeGet_hit S L store hwf c (hin c hc)
+    obtain ⟨c', hget, hval⟩ := storeGet_hit S store hwf hcf c (hin c hc)
     simp [Function.comp, Prod.map, taskResult, hget, hval]
   rw [hmap, ← permute_map, collect_ok]
   simp only
@@ -170,7 +199,8 @@ theorem unpacked_packed (S : SE B DM) (L : Laws S) (content : B) :
     unpackedLevel S (packedBytes S content) = S.unwrap content := by
   simp [unpackedLevel, packedBytes, Gen.SelfEnc.packSerialisesChunk, Gen.SelfEnc.fetchUnwrapsChunk, L.unbin_bin]
 
-theorem pack_good (S : SE B DM) (L : Laws S) (max : Nat) (store : List (Chunk B)) (hwf : WF S store) (data : B) :
+theorem pack_good (S : SE B DM) (L : Laws S) (max : Nat) (store : List (Chunk B)) (hwf : WF S store)
+    (hcf : NoCollision S (store.map (·.value))) (data : B) :
     ∀ (fuel : Nat) (content : B) (acc : List (Chunk B)) dmc out,
     packLoop S max fuel content acc = .ok (dmc, out) → (∀ c ∈ out, c ∈ store) →
     ∀ lvl depth, S.unwrap content = some lvl → Good S store data lvl depth →
@@ -193,7 +223,7 @@ theorem pack_good (S : SE B DM) (L : Laws S) (max : Nat) (store : List (Chunk B)
           intro f hf codes
           obtain ⟨f', rfl⟩ : ∃ f', f = f' + 1 := ⟨f - 1, by omega⟩
           simp only [fetchLoop]
-          rw [fetch_round S L store hwf _ dm next henc (fun c hc => hsub _ (hnext c hc))]
+          rw [fetch_round S L store hwf hcf _ dm next henc (fun c hc => hsub _ (hnext c hc))]
           simp only [↓reduceIte]
           have : (Chunk.new S content).value = content := rfl
           rw [this, unpacked_packed S L content, hlvl]
@@ -236,6 +266,41 @@ theorem pack_fuel_mono (S : SE B DM) (max : Nat) : ∀ (fuel : Nat) (content : B
         simp only [henc] at h ⊢
         exact ih _ _ _ h f' (by omega)
 
+/-- the pack loop comes to an end: with `len content + 1` iterations it returns -/
+theorem pack_terminates (S : SE B DM) (L : Laws S) (max floor : Nat) (H : Shrinks S floor) (hfl : floor ≤ max) :
+    ∀ (n : Nat) (content : B) (acc : List (Chunk B)), S.len content ≤ n →
+      ∃ r, packLoop S max (n + 1) content acc = .ok r := by
+  intro n
+  induction n with
+  | zero =>
+    intro content acc hn
+    simp only [packLoop]
+    have hfit : Gen.SelfEnc.packFits max (S.len (Chunk.new S content).value) = true := by
+      have : (Chunk.new S content).value = content := rfl
+      simp [Gen.SelfEnc.packFits, this]; omega
+    simp only [hfit, ↓reduceIte]
+    exact ⟨_, rfl⟩
+  | succ n ih =>
+    intro content acc hn
+    simp only [packLoop]
+    have hval : (Chunk.new S content).value = content := rfl
+    by_cases hfit : Gen.SelfEnc.packFits max (S.len (Chunk.new S content).value) = true
+    · simp only [hfit, ↓reduceIte]; exact ⟨_, rfl⟩
+    · simp only [hfit, Bool.false_eq_true, ↓reduceIte]
+      have hbig : floor < S.len content := by
+        rw [hval] at hfit
+        simp [Gen.SelfEnc.packFits] at hfit; omega
+      rw [hval]
+      cases henc : S.enc (packedBytes S content) with
+      | none =>
+        have := (L.enc_none_iff_small _).1 henc
+        have := H.packed_large content hbig
+        omega
+      | some p =>
+        obtain ⟨dm, next⟩ := p
+        simp only
+        have hlt := H.shrink content dm next hbig henc
+        exact ih (S.wrap true dm) _ (by omega)
 
 /-! ## Two record sources that agree wherever both answer give the same data -/
 
